@@ -143,6 +143,8 @@ def replay_ops(ops):
             w.eq(op["a"], op["b"])
         elif o == "rec_eq":
             w.rec_eq(op["a"], op["b"])
+        elif o == "rec_hash":
+            w.rec_hash(op["a"], op["b"])
         elif o == "enc_json":
             w.enc_json(op["c"])
         elif o == "dec_json":
